@@ -239,7 +239,7 @@ func c11Gen(r *Rng, i int, tier string) any {
 			in.Kind = "file"
 		}
 	}
-	opts := fsGenOpts{maxBundle: 12, maxFiles: 3, breakPct: 5, noStopPct: 10}
+	opts := fsGenOpts{maxBundle: 12, maxFiles: 3, breakPct: 5, noStopPct: 10, cutPct: 10}
 	if in.Kind == "stream" {
 		opts = fsGenOpts{fixedBundle: 100, maxBundle: 100, maxFiles: 2, breakPct: 0, noStopPct: 10}
 	}
@@ -276,6 +276,20 @@ func c11Gen(r *Rng, i int, tier string) any {
 			cand = sites
 		}
 		in.Fault = cand[r.Intn(len(cand))]
+		if typ == "handler" && in.Layout.Stop != 0 && r.Chance(35) {
+			// the handler call that receives the stop block itself
+			n := 0
+			for i, fl := range in.Layout.Files[:c11FilesRead(&in.Layout)] {
+				for _, b := range fl {
+					if b.Num >= in.Layout.Start && b.Num >= in.Layout.base(i) {
+						if b.Num == in.Layout.Stop {
+							in.Fault = c11Fault{Type: "handler", K: n}
+						}
+						n++
+					}
+				}
+			}
+		}
 	}
 	if in.Fault.Type == "read" && r.Chance(40) {
 		in.Fault.CloseDelayUs = []int{500, 3000, 20000}[r.Intn(3)]
@@ -557,6 +571,13 @@ func c11Corpus() []any {
 		c11Input{Kind: "cursor", Layout: two, Threads: 2, Fault: c11Fault{Type: "download", File: 1, K: 1}},
 		c11Input{Kind: "cursor", Layout: two, Threads: 0, Fault: c11Fault{Type: "download", File: 1, K: 2}},
 		c11Input{Kind: "stream", Layout: fsLayout{Bundle: 100, Start: 3, Stop: 104, Files: [][]fsBlk{chain(1, 99), chain(100, 140)}}, Threads: 2, Fault: c11Fault{Type: "open", File: 1}},
+		// the handler fails on the stop block itself: the handler's error is the cause, not "stop block reached"
+		c11Input{Kind: "stream", Layout: fsLayout{Bundle: 100, Start: 3, Stop: 7, Files: [][]fsBlk{chain(1, 99)}}, Threads: 2, Fault: c11Fault{Type: "handler", K: 4}},
+		c11Input{Kind: "file", Layout: two, Threads: 2, Fault: c11Fault{Type: "handler", K: 5}},
+		c11Input{Kind: "joining", Layout: two, Threads: 0, Fault: c11Fault{Type: "handler", K: 5}},
+		// a bundle cut exactly between two messages reads as a clean shorter file: the next bundle does not link
+		c11Input{Kind: "file", Layout: fsLayout{Bundle: 5, Start: 1, Stop: 6, Files: [][]fsBlk{chain(1, 4)[:2], chain(1, 6)[4:]}}, Threads: 2},
+		c11Input{Kind: "file", Layout: fsLayout{Bundle: 5, Start: 1, Stop: 6, Files: [][]fsBlk{nil, chain(1, 6)[4:]}}, Threads: 0},
 	}
 }
 
